@@ -1461,10 +1461,24 @@ def loop_in_thread(loop: Loop) -> Callable[[], None]:
     >>> loop.is_running()  # No longer running
     False
     """
+    running = False  # Only while the thread started here runs the loop
+
     def _loop_thread() -> None:
+        nonlocal running
         with _get_loop_lock(loop):
             aio.set_event_loop(loop)
-            loop.run_forever()
+            running = True
+            try:
+                loop.run_forever()
+            finally:
+                running = False
+
+    def _stop() -> None:
+        # A stop request which arrives late (the stop function was
+        # called again, the loop had stopped by itself) must not be left
+        # behind for whoever runs the loop next
+        if running:
+            loop.stop()
 
     future = _CROSS_LOOP_POOL.submit(_loop_thread)
 
@@ -1472,7 +1486,8 @@ def loop_in_thread(loop: Loop) -> Callable[[], None]:
         sleep(0)  # Force switching to other threads
 
     def _stopper() -> None:
-        loop.call_soon_threadsafe(loop.stop)
+        if not future.done():
+            loop.call_soon_threadsafe(_stop)
         future.result()  # Wait for loop to exit and reveal errors
 
     return _stopper
